@@ -48,6 +48,8 @@ WireEquiv(a, b) ==
       /\ WireEq(a.wire, b.wire)
       /\ a.parseOK = b.parseOK /\ a.errKey = b.errKey
       /\ (a.parseOK => VEqF(a.parsed, b.parsed))
+      \* (the scripted handlers of the two packages pick "the k-th response" among the implementers ordered by the status
+      \* each writes - driver.ProbeStatuses -, so equal seeds mean the same documented response in both packages)
       /\ ((a.hasResp /\ b.hasResp /\ VEqF(a.responded, b.responded)) =>
               /\ DoneEq(a.done, b.done)
               /\ a.retOK = b.retOK /\ (a.retOK => VEqF(a.ret, b.ret)))
